@@ -221,6 +221,7 @@ def c19(run):
     judge(run, [{"id": 0, "from_tlc": False}], "TestComposite", "CompositeTrace", ["C19_"], shards=1, pkg="p2ph")
     # the Syncer's shared state under concurrent gossip, Head() callers and the sync loop (HeadMonotone at yield-point granularity)
     sync_conc(run, ["C19_"])
+    judge(run, [{"id": 0, "from_tlc": False}], "TestHeadTimeoutRecovers", "SyncConcTrace", ["C19_"], shards=1, pkg="synch")
 
 
 def syncer_cfg(n, maxreq, faults, events, export, live=False):
@@ -440,6 +441,8 @@ def c07(run):
     # real threads: a SyncWait caller in flight while the attempt it waits for is aborted by a getter error (callers blocked
     # on the Syncer's state lock cannot be waited for in a bubble)
     judge(run, [{"id": 0, "from_tlc": False}], "TestSyncWaitFailure", "SyncConcTrace", ["C07_"], shards=1, pkg="synch")
+    # a head request that runs into its own timeout only delays: the next Head() call, with healthy peers, learns the head
+    judge(run, [{"id": 0, "from_tlc": False}], "TestHeadTimeoutRecovers", "SyncConcTrace", ["C07_"], shards=1, pkg="synch")
 
 
 def sync_conc(run, prefixes):
